@@ -122,7 +122,7 @@ def run_tlc(module, cfg, *, mode_args=(), nworkers=None, timeout=1800, env_extra
     if heap:
         cmd.append("-Xmx%s" % heap)
     cmd += ["-cp", TLC_JAR_CP, "tlc2.TLC",
-            "-workers", str(nworkers or workers()), "-metadir", meta, "-cleanup", "-noGenerateSpecTE",
+            "-workers", str(nworkers or workers()), "-metadir", meta, "-cleanup", "-noGenerateSpecTE", "-checkpoint", "0",
             "-config", cfg] + list(mode_args) + [module]
     env = dict(os.environ)
     if java_opts:
